@@ -466,6 +466,114 @@ def gen_space_formula(rng, live, path, s):
     return [i, r, c, a] if i != 1 else 1
 
 
+# ----------------------------------------------------------------------------- name-clash generation
+
+CLASH = [W.CHILD[0], W.CELLS[0], W.REFS[0], W.MREFS[1]]     # "X", "f", "r", "u": one small alphabet for every kind of name
+
+
+def clash_prefix(rng):
+    """a few spaces (chain, diamond or siblings, one of them with a child) to start a name-clash history"""
+    ops = [["new_space", "-", "A", []], ["new_space", "-", "B", rng.choice([[], ["A"]])],
+           ["new_space", "-", "C", rng.choice([[], ["A"], ["B"], ["A", "B"], ["B", "A"]])]]
+    if rng.random() < 0.6:
+        ops.append(["new_space", rng.choice(["A", "B", "C"]), rng.choice(CLASH), []])
+    return ops
+
+
+def gen_clash(rng, live, cfg, prev=None, focus=None):
+    """next operation of a *name-clash* history: cells, references, child spaces, model-level references and some
+    top-level spaces all take their names from the four names of `CLASH`, so that a name is requested for a second
+    kind of thing in the same space, in a base or in a sub space all the time (the shape behind the findings
+    C12-new-ref-first-sub-only and C12-ref-vs-child-space; the mechanism model's disjointness invariant
+    `MxModel.SM.Disj` is about exactly these edits).  Only edits of the vocabulary of the mechanism model are
+    produced, and `del space.name` / `del model.name` only where the name cannot denote another kind of thing
+    (deleting by attribute deletes whatever bears the name)."""
+    spaces = W.all_spaces(live.m)
+    paths = [p for p, _ in spaces]
+    if not paths:
+        return ["new_space", "-", rng.choice(W.TOP), []]
+    path, s = rng.choice(spaces)
+    cells = list(s.cells)
+    k = rng.choices(["new_space", "del_space", "new_cells", "set_formula", "del_cells", "rename_cells", "add_bases",
+                     "remove_bases", "set_ref", "del_ref", "set_mref", "del_mref"],
+                    [2.0, 0.6, 3.0, 1.0, 1.2, 1.0, 2.0, 1.0, 3.5, 0.8, 1.5, 0.5])[0]
+
+    def some_paths():
+        return [rng.choice(paths) for _ in range(rng.choice([1, 1, 1, 2, 2, 3]))]
+
+    def used_below(kinds):
+        """(space path, name) pairs: the name is used, as one of `kinds`, in the space or in a space deriving from it"""
+        out = []
+        for p, sp in spaces:
+            fam = [sp] + [t for _, t in spaces if any(b is sp for b in t.bases)]
+            names = set()
+            for t in fam:
+                if "cells" in kinds:
+                    names |= set(t.cells)
+                if "refs" in kinds:
+                    names |= set(t._own_refs)
+                if "spaces" in kinds:
+                    names |= set(t.spaces)
+            out += [(p, n) for n in sorted(names) if n in CLASH]
+        return out
+    mrefs = [n for n in CLASH if n in live.m.refs]
+    if rng.random() < 0.45:
+        # an aimed request: a name that is in use for another kind of thing in the space or below it
+        if k == "set_ref":
+            cand = [(p, n) for p, n in used_below(("cells", "spaces")) if n in mrefs] or used_below(("cells", "spaces"))
+            if cand:
+                p, n = rng.choice(cand)
+                return ["set_ref", p, n, rng.randint(0, 9)]
+        if k == "set_mref":
+            cand = [n for _, n in used_below(("cells", "spaces")) if n not in mrefs]
+            if cand:
+                return ["set_mref", rng.choice(cand), rng.randint(10, 19)]
+        if k == "new_cells":
+            cand = used_below(("refs", "spaces"))
+            if cand:
+                p, n = rng.choice(cand)
+                return ["new_cells", p, n, F(0, rng.randint(1, 5))]
+        if k == "new_space":
+            cand = used_below(("cells", "refs"))
+            if cand:
+                p, n = rng.choice(cand)
+                return ["new_space", p, n, []]
+        if k == "rename_cells" and cells:
+            cand = [n for p, n in used_below(("refs", "spaces")) if p == path]
+            if cand:
+                return ["rename_cells", path, rng.choice(cells), rng.choice(cand)]
+    if k == "new_space":
+        if rng.random() < 0.5:
+            return ["new_space", "-", rng.choice(W.TOP + CLASH), some_paths() if rng.random() < 0.6 else []]
+        return ["new_space", path, rng.choice(CLASH), some_paths() if rng.random() < 0.4 else []]
+    if k == "del_space":
+        return ["del_space", path]
+    if k == "new_cells":
+        return ["new_cells", path, rng.choice(CLASH), F(0, rng.randint(1, 5))]
+    if k == "set_formula":
+        return ["set_formula", path, rng.choice(cells or CLASH), F(0, rng.randint(1, 5))]
+    if k == "del_cells":
+        return ["del_cells", path, rng.choice(cells or CLASH)]
+    if k == "rename_cells":
+        return ["rename_cells", path, rng.choice(cells or CLASH), rng.choice(CLASH)]
+    if k == "add_bases":
+        return ["add_bases", path, some_paths()]
+    if k == "remove_bases":
+        db = [W.rel(live.m, b) for b in s._direct_bases]
+        return ["remove_bases", path, [rng.choice(db)] if db and rng.random() < 0.85 else some_paths()]
+    if k == "set_ref":
+        return ["set_ref", path, rng.choice(CLASH), rng.randint(0, 9)]
+    if k == "del_ref":
+        free = [n for n in CLASH if n not in s.cells and n not in s.spaces]
+        if free:
+            return ["del_ref", path, rng.choice(free)]
+    if k == "del_mref":
+        free = [n for n in CLASH if n not in live.m.spaces]
+        if free:
+            return ["del_mref", rng.choice(free)]
+    return ["set_mref", rng.choice(CLASH), rng.randint(10, 19)]
+
+
 # ----------------------------------------------------------------------------- generic engine
 
 class Hooks:
@@ -495,12 +603,14 @@ def observe(out, hist, what, fn, *args):
         return False, None
 
 
-def run_one(ops, out, stats, hooks, cfg, rng=None, n_ops=0, seed_ops=None):
+def run_one(ops, out, stats, hooks, cfg, rng=None, n_ops=0, seed_ops=None, gen=None):
     close_all()
     live = W.Live("M")
     hooks.nontrivial = False
     focus = (2 if rng.random() < 0.5 else None) if rng is not None else None
-    if rng is not None and not ops:
+    if rng is not None and not ops and gen is not None:
+        ops += clash_prefix(rng)
+    elif rng is not None and not ops:
         ops += [list(o) for o in (seed_ops if seed_ops is not None else [["set_mref", "u", 11], ["set_mref", "r", 12]])]
         ops += motif(rng, pool=motifs_for(cfg))
     try:
@@ -511,8 +621,7 @@ def run_one(ops, out, stats, hooks, cfg, rng=None, n_ops=0, seed_ops=None):
             if k >= len(ops):
                 if rng is None or k >= n_ops:
                     break
-                ok, nxt = observe(out, lambda: hist_json(ops), "when choosing the next operation", gen_next,
-                                  rng, live, cfg, ops, focus)
+                ok, nxt = observe(out, lambda: hist_json(ops), "when choosing the next operation", lambda: (gen or gen_next)(rng, live, cfg, ops, focus=focus))
                 if not ok:
                     broken = True
                     break
@@ -550,15 +659,20 @@ def run_one(ops, out, stats, hooks, cfg, rng=None, n_ops=0, seed_ops=None):
 
 
 def run_struct(ctx, out, prop, cfg, hooks_factory, n_quick, n_thorough, rule, ops_range=(12, 26),
-               enumerate_single=True):
+               enumerate_single=True, clash=None):
+    """`clash` = (quick, thorough) numbers of additional name-clash histories (`gen_clash`)"""
     stats = collections.Counter()
     n = ctx.n(n_quick, n_thorough)
+    nc = ctx.n(*clash) if clash else 0
     nontrivial, seen, samples = 0, set(), []
-    cases = [(ops, None) for ops in load_corpus(prop)] + [([], ctx.rng("hist", i)) for i in range(n)]
-    for i, (ops, rng) in enumerate(cases):
+    cases = [(ops, None, None) for ops in load_corpus(prop)] + [([], ctx.rng("hist", i), None) for i in range(n)] \
+        + [([], ctx.rng("clash", i), gen_clash) for i in range(nc)]
+    n += nc
+    for i, (ops, rng, gen) in enumerate(cases):
         sub = core.Outcome()
+        stats["clash_histories"] += gen is not None
         nt = run_one(ops, sub, stats, hooks_factory(), cfg, rng=rng,
-                     n_ops=(rng.randint(*ops_range) if rng else 0))
+                     n_ops=(rng.randint(*ops_range) if rng else 0), gen=gen)
         merge(out, sub)
         key = repr(ops)
         if key not in seen:
